@@ -334,7 +334,7 @@ def pre_build(ctx):
 
 
 def known_signature(f, kf):
-    return kf["id"] == "F-COHERENCE" and not R.coherent(f.case["costs"])
+    return kf["id"] == "F-COHERENCE" and not R.coherent(f.case["costs"]) and R.coherence_signature(f)
 
 
 def replay_known(ctx, kf):
